@@ -186,8 +186,8 @@ func checkSubst(r *core.Run, dialect, stmt string) {
 	case "same", "unparseable", "nothing":
 		return
 	}
-	if dialect == "pg" && word == "diff" && HasSubLinkRightOperand(stmt) {
-		r.Fail("pgroundtrip-diff:sublink-right-operand", fmt.Sprintf("%s ⇒ %s", trunc(stmt), trunc(decodePrinted(out))))
+	if dialect == "pg" && (word == "diff" || word == "reparse-fails") && PgBooleanOperand(stmt) {
+		r.Fail("pgroundtrip:boolean-operand-parentheses", fmt.Sprintf("%s ⇒ %s", trunc(stmt), trunc(decodePrinted(out))))
 		return
 	}
 	r.Fail("subst-"+word+":"+dialect, fmt.Sprintf("after value substitution the printed statement does not parse back to the substituted tree [%s]: %s ⇒ %s", dialect, trunc(stmt), trunc(decodePrinted(out))))
@@ -208,8 +208,8 @@ func checkPgRoundTrip(r *core.Run, stmt, source string) {
 		r.Tag("pg-non-dml-" + word)
 		return
 	}
-	if word == "diff" && HasSubLinkRightOperand(stmt) {
-		r.Fail("pgroundtrip-diff:sublink-right-operand", fmt.Sprintf("%s ⇒ %s", trunc(stmt), trunc(decodePrinted(out))))
+	if (word == "diff" || word == "reparse-fails") && PgBooleanOperand(stmt) {
+		r.Fail("pgroundtrip:boolean-operand-parentheses", fmt.Sprintf("%s ⇒ %s", trunc(stmt), trunc(decodePrinted(out))))
 		return
 	}
 	r.Fail("pgroundtrip-"+word, fmt.Sprintf("pg_query: Parse(Deparse(Parse s)) ≠ Parse s [%s]: %s ⇒ %s", source, trunc(stmt), trunc(decodePrinted(out))))
@@ -433,6 +433,9 @@ var corpus = []struct{ dialect, stmt string }{
 	{"my", `select a from t where b > now() - interval "1" hour`},
 	{"pg", "select 1 + (b in (select c from u)) from t"},
 	{"pg", "update t set b = 2 * (b > all (select c from u)) where c = 1"},
+	{"pg", "select a from t where (a or b) is null"},
+	{"pg", "select a from t where b between (b = 1 or c = 2) and 5"},
+	{"pg", "select a from t order by null desc"},
 }
 
 func runStatements(r *core.Run) {
